@@ -118,6 +118,39 @@ func r011(c *Ctx, r *R) {
 		fld, base := fieldLoad(v)
 		return fld != nil && fld.Name() == name && base == ssa.Value(op)
 	}
+	// the pin handed on may be op.Cid itself or a copy of *op.Cid
+	var fromOpCid func(v ssa.Value, d int) bool
+	fromOpCid = func(v ssa.Value, d int) bool {
+		if d < 0 || v == nil {
+			return false
+		}
+		if isOpField(v, "Cid") {
+			return true
+		}
+		switch x := v.(type) {
+		case *ssa.Alloc:
+			sts := storesTo(x)
+			if len(sts) == 0 {
+				return false
+			}
+			for _, s := range sts {
+				if !fromOpCid(s.Val, d-1) {
+					return false
+				}
+			}
+			return true
+		case *ssa.UnOp:
+			return fromOpCid(x.X, d-1)
+		case *ssa.Phi:
+			for _, e := range x.Edges {
+				if !fromOpCid(e, d-1) {
+					return false
+				}
+			}
+			return len(x.Edges) > 0
+		}
+		return false
+	}
 	kPin, kUnpin := c.constNamed("consensus/raft", "LogOpPin"), c.constNamed("consensus/raft", "LogOpUnpin")
 	if kPin == nil || kUnpin == nil {
 		r.Und("consts", f.Pos(), "LogOpPin/LogOpUnpin not found")
@@ -148,10 +181,10 @@ func r011(c *Ctx, r *R) {
 		var pinVal ssa.Value
 		if br.name == "pin" {
 			pinVal = args[1]
-			r.Check(isOpField(pinVal, "Cid"), "pin:state-arg", stCall.Pos(), "state.Add receives the pin decoded into op.Cid", "state.Add does not receive op.Cid")
+			r.Check(fromOpCid(pinVal, 4), "pin:state-arg", stCall.Pos(), "state.Add receives the pin decoded into op.Cid (or a copy of it)", "state.Add does not receive the pin decoded into op.Cid")
 		} else {
 			fld, base := fieldLoad(args[1])
-			ok := fld != nil && fld.Name() == "Cid" && isOpField(base, "Cid")
+			ok := fld != nil && fld.Name() == "Cid" && fromOpCid(base, 4)
 			if ok {
 				pinVal = base
 			}
